@@ -3,9 +3,13 @@
 ID=$1; shift
 cd /verif
 git -C /repo diff --quiet || { echo "/repo not clean"; exit 2; }
+rm -rf /tmp/evidence_keep && cp -r /verif/evidence /tmp/evidence_keep
 git -C /repo apply /verif/seeded/$ID/patch.diff || exit 2
 for P in "$@"; do
   ./check $P --tier quick > /tmp/seedrun_${ID}_$P.log 2>&1; RC=$?
   echo "seed=$ID check=$P rc=$RC :: $(grep -E 'VIOLATION|KNOWN' /tmp/seedrun_${ID}_$P.log | head -2 | tr '\n' ' ')"
 done
-git -C /repo checkout -- . && git -C /repo status --short | head
+git -C /repo checkout -- . && git -C /repo clean -fdq -- test/testdata && git -C /repo status --short | head
+rm -rf /verif/evidence && mv /tmp/evidence_keep /verif/evidence
+# regenerate the facts for the unchanged tree
+(cd /verif && python3 -c "exec(open('check').read().split('def main():')[0]); st={}; build_go(st, False); run_factx(st)")
